@@ -90,3 +90,42 @@ Example c13_startup_lz4 :
   receive 4 init_cstate ([4; 0; 0; 1; 1; 0; 0; 0; 20; 0; 1; 0; 11] ++ str "COMPRESSION" ++ [0; 3] ++ str "LZ4") None
   = GAnswered [RReady] {| comp := str "LZ4"; registered := false |}.
 Proof. vm_compute. reflexivity. Qed.
+
+(** ---- added: stronger statements (proofs in Proofs/*2.v) ---- *)
+From Coq Require Import List ZArith NArith Bool.
+From CqlProxy Require Import Lib.Val Lib.Util Lib.Wire Gen.Tables Model.Frame Model.Override Model.Gate
+  Proofs.GateProofs Proofs.GateProofs2.
+
+(** Every byte list is classified: closed; or dispatched (only PREPARE/QUERY/EXECUTE/BATCH in a
+    version within [3, max]); or answered locally by exactly one frame, the connection state
+    changing only through STARTUP (compression, to a supported algorithm) or REGISTER
+    (registration, only switched on); or -- the model's fourth outcome -- not decoded, only for an
+    opcode outside the set the model decodes. *)
+Theorem c13_receive_classification :
+  forall maxv st frame lb,
+  match receive maxv st frame lb with
+  | GClosed => True
+  | GDispatched =>
+      exists h r, decode_header frame = inr (h, r) /\ 3 <= h_version h <= maxv /\
+        (h_opcode h = 7 \/ h_opcode h = 9 \/ h_opcode h = 10 \/ h_opcode h = 13)
+  | GAnswered rs st' =>
+      exists h r, decode_header frame = inr (h, r) /\ (exists rp, rs = [rp]) /\
+      (st' = st \/
+       (h_opcode h = 1 /\ registered st' = registered st /\ compression_supported (comp st') = true) \/
+       (h_opcode h = 11 /\ comp st' = comp st /\ (registered st = true -> registered st' = true)))
+  | GUnmodelled =>
+      exists h r, decode_header frame = inr (h, r) /\ 3 <= h_version h <= maxv /\
+        modelled_opcode (h_opcode h) = false
+  end.
+Proof. exact receive_classification. Qed.
+Print Assumptions c13_receive_classification.
+
+(** For the opcodes the model decodes there are exactly three outcomes. *)
+Theorem c13_receive_three_outcomes :
+  forall maxv st frame lb h r,
+  decode_header frame = inr (h, r) -> modelled_opcode (h_opcode h) = true ->
+  receive maxv st frame lb = GClosed \/
+  (exists rp st', receive maxv st frame lb = GAnswered [rp] st') \/
+  receive maxv st frame lb = GDispatched.
+Proof. exact receive_three_outcomes. Qed.
+Print Assumptions c13_receive_three_outcomes.
